@@ -596,4 +596,81 @@ Section PotentialsR.
     - apply Rltb_false in E. rewrite Rmin_right by lra. cbn [ab_ref ab_init].
       repeat split; try (field; lra); try lra.
   Qed.
+
+  Lemma abmd_ratchet_stmt : forall (k stop : R) (dec : bool) (s : abmd_state) (x : R),
+    let ref := if ab_init s then ab_ref s else x in
+    let sg := (if dec then -1 else 1)%R in
+    let '(s', (e, f)) := abmd_step Rops k stop dec s x in
+    (e = k / 2 * (Rmin 0 ((x - ref) * sg)) ^ 2 /\
+     f = - sg * k * Rmin 0 ((x - ref) * sg) /\
+     0 <= (ab_ref s' - ref) * sg /\
+     (0 < (ab_ref s' - ref) * sg -> ab_ref s' = x /\ (ref - stop) * sg <= 0))%R /\
+    ab_init s' = true.
+  Proof.
+    intros k stop dec s x. pose proof (abmd_ratchet k stop dec s x) as H. cbv zeta in *.
+    destruct (abmd_step Rops k stop dec s x) as [s' [e f]]. tauto.
+  Qed.
 End PotentialsR.
+
+(* ------------------------------------------------------------------ refutations of the full-strength statements *)
+Section Refuted.
+  Local Open Scope Q_scope.
+  Definition has_boundary {T} (evs : list (@event T)) : bool := existsb (fun e => match e with EBoundary _ => true | _ => false end) evs.
+  Definition has_restart {T} (evs : list (@event T)) : bool := existsb (fun e => match e with ERestart _ => true | _ => false end) evs.
+
+  Lemma k_schedule_staged_refuted_boundary :
+    exists (c : @rcfg Q) evs, c_chg_k c = true /\ c_chg_centers c = false /\ (0 < c_nstages c)%Z /\ (0 < c_nsteps c)%Z /\ evs <> [] /\
+      has_restart evs = false /\
+      Qeq_bool (s_k (m_st (run Qops c evs))) (closed_k_staged Qops c (m_it (run Qops c evs))) = false.
+  Proof. exists (cfg_ks 1), (half_steps 4 ++ [EBoundary [1#2]]). vm_compute. repeat split; discriminate. Qed.
+
+  Lemma k_schedule_staged_refuted_restart :
+    exists (c : @rcfg Q) evs, c_chg_k c = true /\ c_chg_centers c = false /\ (0 < c_nstages c)%Z /\ (0 < c_nsteps c)%Z /\ evs <> [] /\
+      has_boundary evs = false /\
+      Qeq_bool (s_k (m_st (run Qops c evs))) (closed_k_staged Qops c (m_it (run Qops c evs))) = false.
+  Proof. exists (cfg_ks 1), (half_steps 4 ++ [ERestart [1#2]]). vm_compute. repeat split; discriminate. Qed.
+
+  Lemma center_schedule_staged_refuted_boundary :
+    exists (c : @rcfg Q) evs, c_chg_centers c = true /\ (0 < c_nstages c)%Z /\ (2 <= c_nsteps c)%Z /\ evs <> [] /\
+      s_centers (m_st (run Qops c evs)) <> closed_centers_staged Qops c (m_it (run Qops c evs)).
+  Proof. exists (cfg_cs 2), (half_steps 2 ++ [EBoundary [1#2]]). vm_compute. repeat split; discriminate. Qed.
+
+  Lemma center_schedule_staged_refuted_N1 :
+    exists (c : @rcfg Q) evs, c_chg_centers c = true /\ (0 < c_nstages c)%Z /\ c_nsteps c = 1%Z /\ evs <> [] /\
+      Forall (fun e => match e with EStep _ => True | _ => False end) evs /\
+      s_centers (m_st (run Qops c evs)) <> closed_centers_staged Qops c (m_it (run Qops c evs)).
+  Proof.
+    exists (cfg_cs 1), (half_steps 5). split; [reflexivity|]. split; [reflexivity|]. split; [reflexivity|].
+    split; [discriminate|]. split; [repeat constructor|]. vm_compute. discriminate.
+  Qed.
+
+  (* accumulated work of a changing force constant: the documented value is the sum of dU/dk x (k increment);
+     after the end of the schedule (k constant) it must stay constant *)
+  Lemma work_k_refuted :
+    exists (c : @rcfg Q) evs1 evs2, c_chg_k c = true /\ c_nstages c = 0%Z /\ c_acc_work c = true /\
+      (c_it0 c + c_nsteps c <= m_it (run Qops c evs1))%Z /\
+      s_k (m_st (run Qops c (evs1 ++ evs2))) = s_k (m_st (run Qops c evs1)) /\
+      Qeq_bool (s_W (m_st (run Qops c (evs1 ++ evs2)))) (s_W (m_st (run Qops c evs1))) = false.
+  Proof. exists cfg_kc, (half_steps 3), (half_steps 3). vm_compute. repeat split; discriminate. Qed.
+
+  (* accumulated work of a moving centre on a periodic variable: the centre moves by 1/2 per step, the
+     increment used at step 2 is 9/2 (one period too many) *)
+  Lemma work_centers_periodic_refuted :
+    exists (c : @rcfg Q) evs, c_chg_centers c = true /\ c_nstages c = 0%Z /\ c_acc_work c = true /\
+      new_centers Qops c (ratio Qops 2 4) = [5#2] /\ new_centers Qops c (ratio Qops 1 4) = [2] /\
+      m_it (run Qops c evs) = 2%Z /\ s_incr (m_st (run Qops c evs)) = [9#2].
+  Proof. exists cfg_ccp, (half_steps 3). vm_compute. repeat split. Qed.
+
+  (* staged TI without equilibration: the value written for the first stage is (sum of N+1 samples)/N *)
+  Lemma ti_first_stage_refuted :
+    exists (c : @rcfg Q) evs o, c_chg_k c = true /\ c_equil c = 0%Z /\ c_nsteps c = 3%Z /\
+      Forall (fun e => match e with EStep _ => True | _ => False end) evs /\
+      (forall e, In e evs -> dlambda_factor Qops c (stage_lambda Qops c 0) * dUdk_sum Qops c (init_state Qops c) (ev_xs e) == 1) /\
+      nth_error (m_outs (run Qops c evs)) 3 = Some o /\ o_log (snd o) = Some (0, 4#3).
+  Proof.
+    exists (cfg_ks 0), (half_steps 4). eexists. split; [reflexivity|]. split; [reflexivity|]. split; [reflexivity|].
+    split; [repeat constructor|]. split.
+    - intros e He. cbn in He. destruct He as [<-|[<-|[<-|[<-|[]]]]]; vm_compute; reflexivity.
+    - vm_compute. split; reflexivity.
+  Qed.
+End Refuted.
